@@ -37,7 +37,7 @@ func c20GetSTHConsistency(_ *client.LogClient, _ context.Context, first, second 
 	return c20Proof, c20ProofErr
 }
 
-//verif:stub github.com/transparency-dev/merkle/proof.VerifyConsistency files=controller.go
+//verif:stub github.com/transparency-dev/merkle/proof.VerifyConsistency files=*
 func c20VerifyConsistency(_ merkle.LogHasher, s1, s2 uint64, pf [][]byte, r1, r2 []byte) error {
 	c20VerifyCalls++
 	c20VArgs.s1, c20VArgs.s2, c20VArgs.proof, c20VArgs.r1, c20VArgs.r2 = s1, s2, pf, r1, r2
